@@ -862,6 +862,8 @@ class Driver:
         if sched.random() < 0.15:
             params["post_select"] = False
         op = {"srcs": srcs, "plan": self.plan(batch), "params": params}
+        if params.get("normalize") is not False and self.s["peer"].random() < 0.25:
+            op["plan"]["shots_factor"] = self.s["peer"].choice([2, 4, 0.5, 0.25])
         if sched.random() < 0.25:
             op["compilation"] = sched.choice(["identity", "remove_redundancies", "commute", "failing",
                                               "mutate_then_fail"])
